@@ -481,19 +481,21 @@ Proof.
   destruct R as [|y R'].
   - rewrite firstn_nil. split; [reflexivity | constructor].
   - set (k := Z.to_nat n). assert (Hk : (0 < k)%nat) by (unfold k; lia).
-    set (p := firstn k (y :: R')). set (R2 := skipn k (y :: R')).
-    assert (Hp : p <> []) by (apply firstn_skipn_nonempty; [exact Hk | discriminate]).
-    destruct p as [|p0 p'] eqn:Ep; [contradiction|]. rewrite <- Ep in *.
-    assert (Hsplit : y :: R' = p ++ R2) by (unfold p, R2; symmetry; apply firstn_skipn).
-    assert (HS2 : sort_names names = (A ++ p) ++ R2) by (rewrite <- app_assoc, <- Hsplit; exact HS).
-    assert (Hlen : (length R2 < f)%nat).
-    { unfold R2. rewrite skipn_length. cbn [length] in *. lia. }
+    assert (Hsplit0 : firstn k (y :: R') ++ skipn k (y :: R') = y :: R') by apply firstn_skipn.
+    assert (Hflen : (length (firstn k (y :: R')) <= k)%nat) by (rewrite firstn_length; lia).
+    assert (Hslen : (length (skipn k (y :: R')) < f)%nat).
+    { rewrite skipn_length. cbn [length] in *. lia. }
+    destruct (firstn k (y :: R')) as [|a l] eqn:Ep.
+    { exfalso. destruct k; [lia | discriminate]. }
+    set (p := a :: l) in *. set (R2 := skipn k (y :: R')) in *.
+    assert (Hp : p <> []) by discriminate.
+    assert (HS2 : sort_names names = (A ++ p) ++ R2) by (rewrite <- app_assoc, Hsplit0; exact HS).
     destruct (IH names (A ++ p) R2 n Hnd Hn HS2 (Some (last p []))) as [C F].
     + right. split; [intro E; apply app_eq_nil in E as [_ E]; contradiction|].
       f_equal. rewrite (app_removelast_last [] Hp) at 1. rewrite app_assoc. rewrite last_snoc. reflexivity.
-    + exact Hlen.
-    + cbn [concat]. rewrite C. split; [symmetry; exact Hsplit|].
-      constructor; [|exact F]. split; [unfold p; rewrite firstn_length; lia | exact Hp].
+    + exact Hslen.
+    + cbn [concat]. rewrite C. split; [exact Hsplit0|].
+      constructor; [|exact F]. split; [exact Hflen | exact Hp].
 Qed.
 
 Theorem paging_complete : forall names n fuel,
